@@ -295,6 +295,42 @@ func runC11(c *eng.Ctx) {
 		}
 	})
 
+	c.Rule("SYMMETRY", "tsdb/memdb.timeSeriesIndex.GC{hash index and id index are collected together}", func() {
+		// idx.hashes (tags hash -> memory series id) and idx.ids (series id -> memory series id) are the two directions of
+		// one mapping.  GC drops the hash entry of every expired memory id; the id entry of the same memory id has to go in
+		// the same collection — whether it does must not hinge on a size / ratio test of the id index: otherwise a series
+		// that resumes gets a NEW memory id through the hash side while IndexTimeSeries (PutIfNotExist) keeps the OLD one on
+		// the id side, and query and flush look for its points under an id that has no pages.
+		f := c.Fn("tsdb/memdb.timeSeriesIndex.GC")
+		var del []eng.Site
+		for _, g := range append([]*ssa.Function{f}, f.AnonFuncs...) {
+			del = append(del, p.SitesDirect(g, func(p *eng.Prog, in ssa.Instruction) bool {
+				cl, ok := in.(*ssa.Call)
+				if !ok || cl.Common().StaticCallee() == nil || cl.Common().StaticCallee().Name() != "Delete" {
+					return false
+				}
+				return eng.DependsOnField(eng.CallRecv(cl), "tsdb/memdb.timeSeriesIndex.hashes")
+			})...)
+		}
+		c.Check(len(del) > 0, "hash-entries-collected", nil, f, "GC deletes the hash entries of expired memory series ids", "")
+		sts := c.Some(f, eng.StoreField("tsdb/memdb.timeSeriesIndex.ids"), "idx.ids = rebuilt index")
+		for i, st := range sts {
+			conds, _ := eng.GuardingConds(f, st.Instr)
+			bySize := ""
+			for _, cd := range conds {
+				if eng.DependsOn(cd, func(x ssa.Value) bool {
+					cl, ok := x.(*ssa.Call)
+					return ok && cl.Common().StaticCallee() != nil && baseName(cl.Common().StaticCallee().Name()) == "Size" && eng.DependsOnField(eng.CallRecv(cl), "tsdb/memdb.timeSeriesIndex.ids")
+				}) {
+					bySize = p.Desc(cd)
+				}
+			}
+			c.Check(bySize == "", fmt.Sprintf("id-index-collected-whenever-hashes-were[%d]", i), st.Instr, f,
+				"the id index is rebuilt (without the collected memory ids) whenever hash entries were collected — not only when the active share of the id index falls below a threshold",
+				"the rebuild is guarded by "+bySize)
+		}
+	})
+
 	c.Rule("PASS", "aggregation.DownSampling{the sequential getter is asked for every source slot}", func() { sequentialCursorRules(c) })
 
 	c.Rule("ANCHOR", mfT+".FlushSeries{startAt}", func() { flusherAnchors(c) })
